@@ -7,8 +7,8 @@ From Coq Require Import ZArith List Bool.
 From Verif Require Import A64.A64Tmpl A64.A64Sem.
 From VerifGen Require Import IsaA64Db.
 From Verif Require Import Codec.OffsetModel Labels.LabelsModel Labels.LabelsProofs Labels.LabelsExact Labels.LabelsAbs
-  Labels.FlatModel Labels.FlatLemmas Labels.FlatProofs Labels.SparseModel Labels.SparseProofs Labels.A64Dec Labels.A64DbTie Labels.A64RefMeaning Labels.A64RefDb.
-From Verif Require Import X86.X86Model Reloc.X86Meaning Labels.X86RefMeaning.
+  Labels.FlatModel Labels.FlatLemmas Labels.FlatProofs Labels.SparseModel Labels.SparseProofs Labels.A64Dec Labels.A64DbTie Labels.A64RefMeaning Labels.A64RefDb Labels.A64EndToEnd Labels.ResolveComplete.
+From Verif Require Import X86.X86Model Reloc.X86Meaning Labels.X86RefMeaning Labels.X86EndToEnd.
 Import ListNotations.
 Local Open Scope Z_scope.
 
@@ -583,3 +583,220 @@ Theorem C03_a64_adrp_reference_page_witness :
   a64_site_target 0 (read_word (nth O (f_secs f) []) 0 4) = Some 4096.
 Proof. exact a64_adrp_reference_page_witness. Qed.
 Print Assumptions C03_a64_adrp_reference_page_witness.
+
+(* ---- round 7: END TO END for x86 branches, no hypothesis about a structural instruction.  A reference operation whose emitted bytes are
+   `pre` (prefix + opcode as the assembler writes them) followed by the displacement hole, accepted anywhere in ANY label program, once
+   resolved, is - decoded from the FINAL byte image at the first byte of `pre` by C01's proven decoder - a branch to the address where
+   the label was bound.  branch_form m n pre mk says that pre ++ (n-byte immediate w) is C01's encoding of the explicit well-formed
+   structural instruction mk w; it is proved below for every form the assembler emits for label branches. ---- *)
+Theorem C03_x86_label_branch32 : forall ops1 ops2 offs l (m : mode) pre post mk,
+  branch_form m 4 pre mk ->
+  let s1 := run init ops1 in let o := ORef K_Rel32 (-4) l pre 0 post in
+  snd (step s1 o) = EOk ->
+  let ops := ops1 ++ o :: ops2 in
+  resolves_with offs ops ->
+  let st := run init ops in let f := frun finit ops in let id := length (refs s1) in
+  ~ In id (ids (pending st)) ->
+  exists r ls lo, nth_error (refs st) id = Some r /\ r_sec r = cur s1 /\ nth_error (labels st) l = Some (Some (ls, lo)) /\
+    let start := r_site r - zlen pre in
+    site_target m CBranch (mkSh false false 4 1) (nth (r_sec r) offs 0 + start) (skipn (Z.to_nat start) (nth (r_sec r) (f_secs f) []))
+      = Some ((nth ls offs 0 + lo) mod 2 ^ abits m).
+Proof. exact x86_label_branch32. Qed.
+Print Assumptions C03_x86_label_branch32.
+
+Theorem C03_x86_label_branch8 : forall ops1 ops2 offs l (m : mode) pre post mk,
+  branch_form m 1 pre mk ->
+  let s1 := run init ops1 in let o := ORef K_Rel8 (-1) l pre 0 post in
+  snd (step s1 o) = EOk ->
+  let ops := ops1 ++ o :: ops2 in
+  resolves_with offs ops ->
+  let st := run init ops in let f := frun finit ops in let id := length (refs s1) in
+  ~ In id (ids (pending st)) ->
+  exists r ls lo, nth_error (refs st) id = Some r /\ r_sec r = cur s1 /\ nth_error (labels st) l = Some (Some (ls, lo)) /\
+    let start := r_site r - zlen pre in
+    branch8_target m (mkSh false false 1 1) (nth (r_sec r) offs 0 + start) (skipn (Z.to_nat start) (nth (r_sec r) (f_secs f) []))
+      = Some ((nth ls offs 0 + lo) mod 2 ^ abits m).
+Proof. exact x86_label_branch8. Qed.
+Print Assumptions C03_x86_label_branch8.
+
+(* the forms: jmp rel32 (E9), call rel32 (E8), jcc rel32 (0F 80+cc), jmp rel8 (EB), jcc rel8 (70+cc), loopnz/loopz/loop/jecxz (E0..E3),
+   jecxz with an address-size prefix (67 E3), in both modes *)
+Theorem C03_x86_branch_forms : forall m,
+  branch_form m 4 [233] (mk_leg false 0 233) /\ branch_form m 4 [232] (mk_leg false 0 232) /\
+  (forall cc, 0 <= cc < 16 -> branch_form m 4 [15; 128 + cc] (mk_leg false 1 (128 + cc))) /\
+  branch_form m 1 [235] (mk_leg false 0 235) /\
+  (forall cc, 0 <= cc < 16 -> branch_form m 1 [112 + cc] (mk_leg false 0 (112 + cc))) /\
+  (forall k, 0 <= k < 4 -> branch_form m 1 [224 + k] (mk_leg false 0 (224 + k))) /\
+  branch_form m 1 [103; 227] (mk_leg true 0 227).
+Proof.
+  exact (fun m => conj (form_jmp32 m) (conj (form_call32 m) (conj (form_jcc32 m) (conj (form_jmp8 m) (conj (form_jcc8 m) (conj (form_loop8 m) (form_jecxz67 m))))))).
+Qed.
+Print Assumptions C03_x86_branch_forms.
+
+Theorem C03_x86_label_branch32_witness :
+  let ops1 := [ONewLabel; ORaw [144]] in let o := ORef K_Rel32 (-4) O [233] 0 [] in let ops2 := [OGap 100; OBind O; OResolve [0]] in
+  let s1 := run init ops1 in let ops := ops1 ++ o :: ops2 in let st := run init ops in let f := frun finit ops in
+  branch_form M64 4 [233] (mk_leg false 0 233) /\ snd (step s1 o) = EOk /\ resolves_with [0] ops /\ ~ In (length (refs s1)) (ids (pending st)) /\
+  site_target M64 CBranch (mkSh false false 4 1) (0 + 1) (skipn 1 (nth O (f_secs f) [])) = Some 106.
+Proof. exact x86_label_branch32_witness. Qed.
+Print Assumptions C03_x86_label_branch32_witness.
+
+Theorem C03_x86_label_branch8_witness :
+  let ops1 := [ONewLabel; ORaw [144]] in let o := ORef K_Rel8 (-1) O [116] 0 [] in let ops2 := [OGap 10; OBind O; OResolve [0]] in
+  let s1 := run init ops1 in let ops := ops1 ++ o :: ops2 in let st := run init ops in let f := frun finit ops in
+  branch_form M32 1 [112 + 4] (mk_leg false 0 (112 + 4)) /\ snd (step s1 o) = EOk /\ resolves_with [0] ops /\ ~ In (length (refs s1)) (ids (pending st)) /\
+  branch8_target M32 (mkSh false false 1 1) (0 + 1) (skipn 1 (nth O (f_secs f) [])) = Some 13.
+Proof. exact x86_label_branch8_witness. Qed.
+Print Assumptions C03_x86_label_branch8_witness.
+
+(* x86-64 `lea r64, [rip + L + d]` / `mov r64, [rip + L + d]` / `mov [rip + L + d], r64`: the same, for the forms without trailing immediate
+   (rip_form pre mk reg: pre ++ disp32 is C01's encoding of mk d; proved for REX.W, opcodes 8D / 8B / 89, all 16 registers) *)
+Theorem C03_x86_label_rip : forall ops1 ops2 offs l rel pre mk reg,
+  rip_form pre mk reg ->
+  let s1 := run init ops1 in let o := ORef K_Rel32 rel l pre 0 [] in
+  snd (step s1 o) = EOk ->
+  let ops := ops1 ++ o :: ops2 in
+  resolves_with offs ops ->
+  let st := run init ops in let f := frun finit ops in let id := length (refs s1) in
+  ~ In id (ids (pending st)) ->
+  exists r ls lo, nth_error (refs st) id = Some r /\ r_sec r = cur s1 /\ nth_error (labels st) l = Some (Some (ls, lo)) /\
+    let start := r_site r - zlen pre in
+    site_target M64 CMem (mkSh true false 0 1) (nth (r_sec r) offs 0 + start) (skipn (Z.to_nat start) (nth (r_sec r) (f_secs f) []))
+      = Some ((nth ls offs 0 + lo + (rel + 4)) mod 2 ^ 64).
+Proof. exact x86_label_rip. Qed.
+Print Assumptions C03_x86_label_rip.
+
+Theorem C03_x86_rip_forms : forall opc reg, opc = 141 \/ opc = 139 \/ opc = 137 -> 0 <= reg < 16 ->
+  rip_form [72 + 4 * (reg / 8); opc; 8 * (reg mod 8) + 5] (mk_rip opc reg) reg.
+Proof. exact rip_forms. Qed.
+Print Assumptions C03_x86_rip_forms.
+
+Theorem C03_x86_label_rip_witness :
+  let ops1 := [ONewLabel; ORaw [144]] in let o := ORef K_Rel32 (-4) O [72; 141; 5] 0 [] in let ops2 := [OGap 100; OBind O; OResolve [0]] in
+  let s1 := run init ops1 in let ops := ops1 ++ o :: ops2 in let st := run init ops in let f := frun finit ops in
+  rip_form [72 + 4 * (0 / 8); 141; 8 * (0 mod 8) + 5] (mk_rip 141 0) 0 /\ snd (step s1 o) = EOk /\ resolves_with [0] ops /\
+  ~ In (length (refs s1)) (ids (pending st)) /\
+  site_target M64 CMem (mkSh true false 0 1) (0 + 1) (skipn 1 (nth O (f_secs f) [])) = Some 108.
+Proof. exact x86_label_rip_witness. Qed.
+Print Assumptions C03_x86_label_rip_witness.
+
+(* AArch64 end to end, hypotheses about the OPERATION only: instruction i emitted with a zero displacement field anywhere in any program,
+   once resolved, is found in the final image as a word that decodes to i with the displacement, designates label + addend (ADRP: its
+   page), and is the word C02's instruction-level database model emits for the operand "label at pc + final displacement" *)
+Theorem C03_a64_label_reference : forall ops1 ops2 offs l i rel,
+  a64_wf (set_imm i 0) ->
+  let s1 := run init ops1 in let o := ORef (kind_of i) rel l [] (a64_enc (set_imm i 0)) [] in
+  snd (step s1 o) = EOk ->
+  let ops := ops1 ++ o :: ops2 in
+  resolves_with offs ops ->
+  let st := run init ops in let f := frun finit ops in let id := length (refs s1) in
+  ~ In id (ids (pending st)) ->
+  exists r ls lo, nth_error (refs st) id = Some r /\ r_sec r = cur s1 /\ nth_error (labels st) l = Some (Some (ls, lo)) /\
+    let w := read_word (nth (r_sec r) (f_secs f) []) (r_site r) 4 in
+    let pc := nth (r_sec r) offs 0 + r_site r in
+    let target := nth ls offs 0 + lo + rel in
+    a64_dec w = Some (set_imm i (final_disp offs ls lo r / 2 ^ discard (fmt_of_kind (kind_of i)))) /\
+    a64_site_target pc w = Some (match i with
+                                 | IAdr true _ _ => ((target - target mod 4096) mod 2 ^ 64)
+                                 | _ => target mod 2 ^ 64
+                                 end) /\
+    (a64_db_ok i ->
+     spec_rows rows (a64_mn i) (a64_ops (set_imm i (final_disp offs ls lo r / 2 ^ discard (fmt_of_kind (kind_of i))))) = Some (a64_rid i, w)).
+Proof. exact a64_label_reference. Qed.
+Print Assumptions C03_a64_label_reference.
+
+Theorem C03_a64_label_reference_witness :
+  let ops1 := [ONewLabel; ONewSection; ORaw [31; 32; 3; 213]] in let i := ICb true false 5 0 in
+  let o := ORef (kind_of i) 0 O [] (a64_enc (set_imm i 0)) [] in let ops2 := [OSection 1%nat; OGap 8; OBind O; OResolve [0; 4096]] in
+  let s1 := run init ops1 in let ops := ops1 ++ o :: ops2 in let st := run init ops in let f := frun finit ops in
+  a64_wf (set_imm i 0) /\ a64_db_ok i /\ snd (step s1 o) = EOk /\ resolves_with [0; 4096] ops /\ ~ In (length (refs s1)) (ids (pending st)) /\
+  a64_site_target 4 (read_word (nth O (f_secs f) []) 4 4) = Some 4104.
+Proof. exact a64_label_reference_witness. Qed.
+Print Assumptions C03_a64_label_reference_witness.
+
+(* x86-64 `mov [rip + L + d], imm` / `add dword [rip + L + d], imm8`: RIP-relative operand followed by an n-byte immediate (the `post` bytes
+   of the operation); the instruction designates label + (recorded addend + 4 + n) = label + d *)
+Theorem C03_x86_label_rip_imm : forall ops1 ops2 offs l rel n pre mk reg imm,
+  rip_form_imm n pre mk reg -> 0 <= imm < 256 ^ Z.of_nat n ->
+  let s1 := run init ops1 in let o := ORef K_Rel32 rel l pre 0 (X86Model.le_bytes n imm) in
+  snd (step s1 o) = EOk ->
+  let ops := ops1 ++ o :: ops2 in
+  resolves_with offs ops ->
+  let st := run init ops in let f := frun finit ops in let id := length (refs s1) in
+  ~ In id (ids (pending st)) ->
+  exists r ls lo, nth_error (refs st) id = Some r /\ r_sec r = cur s1 /\ nth_error (labels st) l = Some (Some (ls, lo)) /\
+    let start := r_site r - zlen pre in
+    site_target M64 CMem (mkSh true false n 1) (nth (r_sec r) offs 0 + start) (skipn (Z.to_nat start) (nth (r_sec r) (f_secs f) []))
+      = Some ((nth ls offs 0 + lo + (rel + 4 + Z.of_nat n)) mod 2 ^ 64).
+Proof. exact x86_label_rip_imm. Qed.
+Print Assumptions C03_x86_label_rip_imm.
+
+Theorem C03_x86_rip_imm_forms :
+  rip_form_imm 1 [198; 5] (mk_rip_imm false false 198 0) 0 /\ rip_form_imm 2 [102; 199; 5] (mk_rip_imm true false 199 0) 0 /\
+  rip_form_imm 4 [199; 5] (mk_rip_imm false false 199 0) 0 /\ rip_form_imm 4 [72; 199; 5] (mk_rip_imm false true 199 0) 0 /\
+  rip_form_imm 1 [131; 5] (mk_rip_imm false false 131 0) 0.
+Proof. exact (conj rip_form_mov8 (conj rip_form_mov16 (conj rip_form_mov32 (conj rip_form_mov64 rip_form_add8)))). Qed.
+Print Assumptions C03_x86_rip_imm_forms.
+
+Theorem C03_x86_label_rip_imm_witness :
+  let ops1 := [ONewLabel; ORaw [144]] in let o := ORef K_Rel32 (-8) O [199; 5] 0 (X86Model.le_bytes 4 305419896) in
+  let ops2 := [OGap 100; OBind O; OResolve [0]] in
+  let s1 := run init ops1 in let ops := ops1 ++ o :: ops2 in let st := run init ops in let f := frun finit ops in
+  snd (step s1 o) = EOk /\ resolves_with [0] ops /\ ~ In (length (refs s1)) (ids (pending st)) /\
+  nth_error (labels st) O = Some (Some (O, 111)) /\
+  site_target M64 CMem (mkSh true false 4 1) (0 + 1) (skipn 1 (nth O (f_secs f) [])) = Some 111.
+Proof. exact x86_label_rip_imm_witness. Qed.
+Print Assumptions C03_x86_label_rip_imm_witness.
+
+(* ---- round 7: the COMPLETENESS direction.  C03_never_truncates: an unencodable displacement is never patched.  Here: after
+   resolve_cross_section_fixups every reference whose label is bound, whose flattened positions do not overflow 64 bits and whose
+   displacement IS encodable is resolved; so after a resolve such a reference is pending iff its displacement is not encodable. ---- *)
+Theorem C03_resolve_complete : forall ops offs id r ls lo m,
+  let s0 := run init ops in let s := run init (ops ++ [OResolve offs]) in
+  nth_error (refs s0) id = Some r -> nth_error (labels s0) (r_label r) = Some (Some (ls, lo)) ->
+  nth ls offs 0 + lo < 2 ^ 64 -> nth (r_sec r) offs 0 + r_site r < 2 ^ 64 ->
+  encode_offset (fmt_of_kind (r_kind r)) (final_disp offs ls lo r) = Some m ->
+  ~ In id (ids (pending s)).
+Proof. exact resolve_complete. Qed.
+Print Assumptions C03_resolve_complete.
+
+(* an ACCEPTED bind resolves every pending reference of the label in the section it is bound in *)
+Theorem C03_bind_complete : forall ops l id r,
+  let s0 := run init ops in
+  snd (step s0 (OBind l)) = EOk ->
+  let s := fst (step s0 (OBind l)) in
+  nth_error (refs s0) id = Some r -> r_label r = l -> r_sec r = cur s0 ->
+  ~ In id (ids (pending s)).
+Proof. exact bind_complete. Qed.
+Print Assumptions C03_bind_complete.
+
+(* a reference whose label has no position is pending, in every reachable state *)
+Theorem C03_unbound_is_pending : forall ops id r,
+  let s := run init ops in
+  nth_error (refs s) id = Some r -> nth_error (labels s) (r_label r) = Some None -> In id (ids (pending s)).
+Proof. exact unbound_is_pending. Qed.
+Print Assumptions C03_unbound_is_pending.
+
+Theorem C03_resolve_complete_witness :
+  let ops := [ONewLabel; ONewSection; ORef K_Rel32 (-4) O [233] 0 []; OSection 1%nat; OGap 7; OBind O] in
+  let s0 := run init ops in let s := run init (ops ++ [OResolve [0; 16]]) in
+  exists r m, nth_error (refs s0) O = Some r /\ nth_error (labels s0) (r_label r) = Some (Some (1%nat, 7)) /\ In O (ids (pending s0)) /\
+    encode_offset (fmt_of_kind (r_kind r)) (final_disp [0; 16] 1 7 r) = Some m /\ pending s = [] /\ unresolved s = 0.
+Proof. exact resolve_complete_witness. Qed.
+Print Assumptions C03_resolve_complete_witness.
+
+(* nothing is ever half patched: while a reference is pending, the word in the byte image at its site is exactly the word the assembler
+   emitted (zero displacement field), in every reachable state *)
+Theorem C03_pending_image_untouched : forall ops id r,
+  let s := run init ops in let f := frun finit ops in
+  nth_error (refs s) id = Some r -> In id (ids (pending s)) ->
+  read_word (nth (r_sec r) (f_secs f) []) (r_site r) (vnat (r_kind r)) = r_w0 r.
+Proof. exact pending_image_untouched. Qed.
+Print Assumptions C03_pending_image_untouched.
+
+Theorem C03_pending_image_untouched_witness :
+  let ops := [ONewLabel; ORaw [144]; ORef K_Rel8 (-1) O [235] 0 []; OGap 200; OBind O] in
+  let s := run init ops in let f := frun finit ops in
+  In O (ids (pending s)) /\ read_word (nth O (f_secs f) []) 2 1 = 0 /\ unresolved s = 1.
+Proof. exact pending_image_untouched_witness. Qed.
+Print Assumptions C03_pending_image_untouched_witness.
